@@ -11,7 +11,9 @@ TEXT = {
 }
 TEXT["C13"] = ("fault_enumeration", "every single cut point (plus multi-cuts and byte-at-a-time) of generated SOCKS5 / HTTP CONNECT / absolute-URI handshakes, well-formed and malformed, against the real client with a real server and target behind it; oracle = exact dial, conformant replies, exact payload, refusal of malformed requests. Exhaustive over single cuts of the sampled handshakes, sampled over the grammar.", "DESIGN.md 4/C13")
 TEXT["C15"] = ("fault_enumeration", "batches of concurrent flows through the real client and server, each ended by one fault of the catalogue (half-close, close, abandon, reset on either side, link cut at a byte offset, target refused / unresolvable / black-holed) at a seeded point of the transfer over tcp/tls/ws/wss; oracle on the history: closing side's data delivered, other side notified within 10 simulated seconds, sockets and tasks of both nodes back at the idle baseline.", "DESIGN.md 4/C15")
+TEXT["C08"] = ("fault_enumeration", "each fault of the catalogue alone and seeded sequences of up to 5 (8) against the real client and server in every protocol/transport cell, stalled connections held open, followed by a fresh canary flow that must be served within 60 simulated seconds (bounded liveness once faults stop), listeners still bound, mains still running.", "DESIGN.md 4/C08")
 NOTE = {
+ "C08": "trusted base as C01; fault catalogue is the harness's; TCP side only in this check",
  "C15": "trusted base as C01; 'descriptors' = simulated sockets, 'tasks' = tokio tasks attributed to a node through the runtime's spawn hooks",
  "C13": "trusted base as C01; grammar of requests is the harness's; the application waits for each reply",
  "C01": "trusted base: the simulated kernel model (/verif/seam), harness applications/targets, tokio's scheduler; one thread per world; QUIC cells not covered",
